@@ -150,9 +150,9 @@ CLAIMS.update({
  "C26": ("exploration",
    "BOUNDED ONLY - the PEG parser is generated table code outside the subset. rcheck/pqlfmt: query text generated from the grammar together with the intended AST (all call forms, both quote styles with escapes and arbitrary Unicode, int64 extremes, floats, booleans, null, lists, conditions, timestamps): ParseString must return exactly that AST (Go types included); every parsed call is key-translated the way the executor does it, printed with String() and re-parsed: the result must mean the same.",
    "bounded exploration; nothing here is a proof.", "bounded stand-in"),
- "C27": ("exploration",
-   "BOUNDED ONLY - the serializer is a large type switch over generated protobuf code. rcheck/wire: for all 28 Serializer message types and all 10 query result kinds, random values (empty/nil/boundary fields) are Marshal-ed and Unmarshal-ed and every exported field compared by reflection (nil == empty slice/map); Unmarshal is fed empty, random, truncated and bit-flipped bytes and must not panic. Two open findings (IndexInfo.Options / ShardWidth missing from the protobuf schema) are listed in known_findings.json and printed as KNOWN-FINDING.",
-   "bounded exploration; nothing here is a proof.", "bounded stand-in"),
+ "C27": ("proof",
+   "Deductive part (the 'decoding returns an error rather than panicking' clause, hand-written half): 20 decoders of encoding/proto (schema, nodes, cluster/node status, resize instruction parts, coordinator and node-event messages, query results) never dereference nil or index out of range, for every message value in which singular sub-messages may be absent and repeated ones have non-nil elements - that is all that is assumed about the generated gogo-proto Unmarshal. Round-trip equality is covered only by the bounded stand-in. rcheck/wire: for all 28 Serializer message types and all 10 query result kinds, random values (empty/nil/boundary fields) are Marshal-ed and Unmarshal-ed and every exported field compared by reflection (nil == empty slice/map); Unmarshal is fed empty, random, truncated and bit-flipped bytes and must not panic. Two open findings (IndexInfo.Options / ShardWidth missing from the protobuf schema) are listed in known_findings.json and printed as KNOWN-FINDING.",
+   TRUST + "The generated protobuf Unmarshal is assumed to produce well-typed values with non-nil repeated elements; decodeIndexStatuses is a trusted contract (its callee builds a roaring bitmap).", "contract-based deductive verification (no-panic obligations) + bounded stand-in"),
 })
 BR = ("BOUNDED addition rcheck/roaring (labelled bounded, never counted as proved): model-based execution of the real Bitmap API against a set model over 15 construction flavours (slice/B-tree, optimized, mapped, frozen, cloned, imported, official-decoded ...) and boundary-heavy container keys/contents: every read, 24 set operations over all 9 container-type pairs, random mutation histories with all reads re-compared after each step, isolation of derived values, encode/decode round trips incl. a hand-written official-format encoder, op-log replay. ")
 for _k in ("C01", "C02", "C03", "C04", "C05"):
